@@ -13,7 +13,10 @@ from ..ref import ref_ecdsa as re_
 PROPERTY = "C04"
 LEVEL = "exploration"
 
-HASHES = ["md5", "sha1", "sha256", "sha512", "t4", "t9"]
+# several hash functions per digest size (16, 20, 32, 64 bytes): state keyed
+# by the size alone must not be shared between them
+HASHES = ["md5", "sha1", "sha256", "sha512", "t4", "t9", "sha3_256", "t32",
+          "t20", "blake2s", "t16", "sha3_512"]
 
 
 def genk_case(q, x, hname, digest, retry, extra):
